@@ -159,8 +159,8 @@ def find_dunder(o, name):
         a = inspect.getattr_static(t, name)
     except AttributeError:
         return None
-    if isinstance(a, types.FunctionType) and it.is_interpretable(a):
-        return a
+    if isinstance(a, types.FunctionType) and it.is_interpretable(a) and not a.__code__.co_filename.startswith("<"):
+        return a  # (generated dataclass methods have no source: they run natively on concrete operands)
     return None
 
 
@@ -788,10 +788,23 @@ def delitem(I, o, k):
         raise PyRaise(ex, implicit=True)
 
 
+class OneShot:
+    """an iterator object: yields its items once (iter(x), generator objects handed around as values)"""
+
+    def __init__(self, items):
+        self.items = list(items)
+
+    def take_all(self):
+        r, self.items = self.items, []
+        return r
+
+
 def iterate(I, it):
     """finite list of the elements of an iterable value"""
     if isinstance(it, (list, tuple)):
         return list(it)
+    if isinstance(it, OneShot):
+        return it.take_all()
     if isinstance(it, SBytes):
         n = it.concrete_len()
         if n is None:
